@@ -1564,3 +1564,7 @@ B('h5_cookie_middleware_moved_and_answers_itself', ['C15'], 'R15.b',
 B('h5_cookie_middleware_moved_and_reads_a_mixin_attribute', ['C15'], 'R15.a',
   *_moved_cookie_mw(_CK_MW_SRC.replace("        cookie.save_cookie(response, **save_cookie_kwargs)\n        return response\n",
                                        "        cookie.save_cookie(response, **save_cookie_kwargs)\n        response.cache_control.private = True\n        return response\n")))
+_RES_PROP_SRC = _RESERVOIR_SRC.replace("    def add(self, val):\n", "    @property\n    def _data_count(self):\n        return len(self._data)\n\n    def add(self, val):\n") \
+    .replace("        if len(self._data) < self._cap:\n", "        if self._data_count < self._cap:\n").replace("        if new_size >= len(self._data):\n", "        if new_size >= self._data_count:\n")
+T('h5_store_moved_with_size_property', ['C19'], *_moved_store(_RES_PROP_SRC))
+B('h5_store_moved_with_size_property_one_too_many', ['C19'], 'R19.c', *_moved_store(_RES_PROP_SRC.replace("        if self._data_count < self._cap:\n", "        if self._data_count <= self._cap:\n")))
